@@ -2914,3 +2914,157 @@ func RLcTable(c *core.Ctx) {
 		c.Check(len(bad) == 0, key, row.Pos(), "not case variants: %s", strings.Join(bad, " "))
 	}
 }
+
+// R-TEXTSLICE: the adapter hands out pieces of the input, not re-encoded runes.
+func RTextSlice(c *core.Ctx) {
+	c.Rule("R-TEXTSLICE", "the adapter's string- and []byte-returning methods cut their results out of the caller's input (s[lo:hi], b[lo:hi] with byte offsets); nothing in package compat calls Capture.String / Group.String / Match.String / Runes, which re-encode the decoded runes and turn every invalid input byte into U+FFFD (three bytes)", 1)
+	p := c.P
+	cp := p.Pkg("compat")
+	if cp == nil {
+		c.Anchor("package compat")
+		return
+	}
+	info := cp.TypesInfo
+	nSlices, nBad := 0, 0
+	for _, fd := range p.FuncDecls(cp) {
+		if fd.Body == nil || p.IsTestFile(fd.Pos()) {
+			continue
+		}
+		name := core.DeclName(cp, fd)
+		ast.Inspect(fd.Body, func(x ast.Node) bool {
+			switch y := x.(type) {
+			case *ast.CallExpr:
+				fn := core.Callee(info, y)
+				if fn == nil || fn.Pkg() == nil || fn.Pkg().Path() != core.PkgRoot {
+					return true
+				}
+				sig, _ := fn.Type().(*types.Signature)
+				if sig == nil || sig.Recv() == nil {
+					return true
+				}
+				_, tn := core.NamedOf(sig.Recv().Type())
+				if (tn == "Capture" || tn == "Group" || tn == "Match") && (fn.Name() == "String" || fn.Name() == "Runes") {
+					nBad++
+					c.Visit(name)
+					c.Bad(fmt.Sprintf("%s / text taken from re-encoded runes #%d", name, nBad), y.Pos(), "%s.%s() rebuilds the text from decoded runes: invalid bytes of the input come back as U+FFFD; cut the result out of the input with the byte range instead", tn, fn.Name())
+				}
+			case *ast.SliceExpr:
+				if t := info.TypeOf(y.X); t != nil {
+					if b, ok := t.Underlying().(*types.Basic); ok && b.Info()&types.IsString != 0 {
+						nSlices++
+					} else if sl, ok := t.Underlying().(*types.Slice); ok && types.Identical(sl.Elem(), types.Typ[types.Byte]) {
+						nSlices++
+					}
+				}
+			}
+			return true
+		})
+	}
+	if nSlices == 0 {
+		c.Anchor("slices of the input string / byte slice in package compat")
+		return
+	}
+	if nBad == 0 {
+		c.OK("compat / results are cut out of the input", token.NoPos, "%d slice expressions on strings / byte slices; no call of Capture.String / Runes", nSlices)
+	}
+}
+
+// R-NILEMPTY: "no match" is nil.
+func RNilEmpty(c *core.Ctx) {
+	c.Rule("R-NILEMPTY", "a find-all driver that allocates its result before the loop (make(..., 0, n)) returns nil, not that empty slice, when nothing was appended: the function tests the length of the result against 0 and returns nil — Go's regexp returns nil for no match with every n", 1)
+	p := c.P
+	n := 0
+	for _, short := range []string{"regexp2", "compat"} {
+		pk := p.Pkg(short)
+		if pk == nil {
+			continue
+		}
+		info := pk.TypesInfo
+		for _, fd := range p.FuncDecls(pk) {
+			if fd.Body == nil || p.IsTestFile(fd.Pos()) || !strings.Contains(strings.ToLower(fd.Name.Name), "findall") {
+				continue
+			}
+			name := core.DeclName(pk, fd)
+			// result variables: returned identifiers of slice type
+			returned := map[types.Object]bool{}
+			ast.Inspect(fd.Body, func(x ast.Node) bool {
+				if rs, ok := x.(*ast.ReturnStmt); ok && len(rs.Results) > 0 {
+					if id, ok := ast.Unparen(rs.Results[0]).(*ast.Ident); ok {
+						if obj := info.ObjectOf(id); obj != nil {
+							if _, isSl := obj.Type().Underlying().(*types.Slice); isSl {
+								returned[obj] = true
+							}
+						}
+					}
+				}
+				return true
+			})
+			for obj := range returned {
+				// pre-allocated with make(T, 0, ...) somewhere?
+				prealloc := false
+				var at token.Pos
+				ast.Inspect(fd.Body, func(x ast.Node) bool {
+					as, ok := x.(*ast.AssignStmt)
+					if !ok || len(as.Lhs) != 1 || len(as.Rhs) != 1 {
+						return true
+					}
+					id, ok := as.Lhs[0].(*ast.Ident)
+					if !ok || info.ObjectOf(id) != obj {
+						return true
+					}
+					call, ok := ast.Unparen(as.Rhs[0]).(*ast.CallExpr)
+					if !ok || len(call.Args) < 2 {
+						return true
+					}
+					if fid, ok := call.Fun.(*ast.Ident); ok && fid.Name == "make" {
+						if k, ok := core.ConstInt(info, call.Args[1]); ok && k == 0 {
+							prealloc = true
+							at = as.Pos()
+						}
+					}
+					return true
+				})
+				if !prealloc {
+					continue
+				}
+				n++
+				c.Visit(name)
+				tests := false
+				ast.Inspect(fd.Body, func(x ast.Node) bool {
+					ifs, ok := x.(*ast.IfStmt)
+					if !ok {
+						return true
+					}
+					be, ok := ast.Unparen(ifs.Cond).(*ast.BinaryExpr)
+					if !ok || be.Op != token.EQL {
+						return true
+					}
+					if k, ok := core.ConstInt(info, be.Y); !ok || k != 0 {
+						return true
+					}
+					call, ok := ast.Unparen(be.X).(*ast.CallExpr)
+					if !ok || len(call.Args) != 1 {
+						return true
+					}
+					if fid, ok := call.Fun.(*ast.Ident); !ok || fid.Name != "len" {
+						return true
+					}
+					if id, ok := ast.Unparen(call.Args[0]).(*ast.Ident); ok && info.ObjectOf(id) == obj {
+						for _, st := range ifs.Body.List {
+							if rs, ok := st.(*ast.ReturnStmt); ok && len(rs.Results) > 0 {
+								if tv, ok := info.Types[rs.Results[0]]; ok && tv.IsNil() {
+									tests = true
+								}
+							}
+						}
+					}
+					return true
+				})
+				c.Check(tests, fmt.Sprintf("%s / pre-allocated result %s is not returned empty", name, obj.Name()), at, "the result is allocated before the loop and returned as it is: with no match the caller gets an empty non-nil slice where the standard library (and this function for n < 0) gives nil")
+			}
+		}
+	}
+	if n == 0 {
+		c.Anchor("a find-all function that pre-allocates its result")
+	}
+}
